@@ -34,7 +34,9 @@ fn kind_from(s: &str) -> Option<OpKind> {
     })
 }
 
-fn gen_history(seed: u64) -> (ExecCfg, Vec<Op>, u64) {
+/// `quiet`: no merge policy, no explicit merges, no policy switches - nothing runs in the
+/// background, so a writer can be kept after a failed commit without racing a merge
+fn gen_history(seed: u64, quiet: bool) -> (ExecCfg, Vec<Op>, u64) {
     let mut rng = Rng::new(seed);
     let mut cfg = ExecCfg::random(&mut rng, false);
     cfg.threads = *rng.pick(&[1usize, 2, 3]);
@@ -43,7 +45,11 @@ fn gen_history(seed: u64) -> (ExecCfg, Vec<Op>, u64) {
     gcfg.w[8] = 8; // merges
     gcfg.w[5] = 14; // commits
     let mut g = HistGen::new();
-    let ops = g.history(&mut rng, &gcfg);
+    let mut ops = g.history(&mut rng, &gcfg);
+    if quiet {
+        cfg.merge_policy = false;
+        ops.retain(|o| !matches!(o, Op::Merge { .. } | Op::SetPolicy(_)));
+    }
     (cfg, ops, rng.next_u64())
 }
 
@@ -73,16 +79,51 @@ fn check_late_publish(
     when: &str,
 ) {
     let Some((would, payload)) = maybe_later.clone() else { return };
-    if let Ok(ids) = observe_snapshot(mon) {
-        if same(&ids, &would) && !same(&ids, &ex.model.committed) {
+    let observed = observe_snapshot(mon);
+    if let Err(e) = &observed {
+        viol.push((
+            "after-failed-commit+gc:last-commit-unreadable".into(),
+            json!({"when": when, "err": e}),
+        ));
+    }
+    if let Ok(ids) = observed {
+        if same(&ids, &ex.model.committed) {
+            return;
+        }
+        let old = ex.model.committed.clone();
+        // every observed document belongs to the old or the new state, nothing common to both
+        // is missing (see the comment at the first use)
+        let between = ids.iter().all(|i| old.contains_key(i) || would.contains_key(i))
+            && old.keys().filter(|k| would.contains_key(k)).all(|k| ids.contains(k));
+        if !between {
             viol.push((
-                "failed-commit-took-effect-later:published-by-end_merge-after-commit-returned-Err".into(),
-                json!({"when": when, "n_ids": ids.len()}),
+                "after-failed-commit:state-differs-from-last-commit".into(),
+                json!({"when": when, "n_ids": ids.len(), "expected": old.len()}),
             ));
-            ex.model.pending.clear();
-            ex.model.committed = would.clone();
+            return;
+        }
+        let exact = same(&ids, &would);
+        viol.push((
+            if exact {
+                "failed-commit-took-effect-later:published-by-end_merge-after-commit-returned-Err".into()
+            } else {
+                "failed-commit-took-effect-later:published-by-end_merge-after-commit-returned-Err:partial".into()
+            },
+            json!({"when": when, "n_ids": ids.len(), "old": old.len(), "new": would.len()}),
+        ));
+        let mut adopted = DocSetState::new();
+        for i in &ids {
+            if let Some(d) = would.get(i).or_else(|| old.get(i)) {
+                adopted.insert(*i, d.clone());
+            }
+        }
+        ex.model.pending.clear();
+        ex.model.committed = adopted.clone();
+        if exact {
             ex.model.payload = payload;
-            ex.model.commits.push(would);
+        }
+        ex.model.commits.push(adopted);
+        if exact {
             *maybe_later = None;
         }
     }
@@ -93,7 +134,8 @@ fn child_main(args: &BTreeMap<String, String>) -> ! {
     let seed: u64 = args["cseed"].parse().unwrap();
     let sel: Vec<&str> = args["sel"].split(':').collect();
     let (role, kind, fkind, nth, mode) = (sel[0], sel[1], sel[2], sel[3].parse::<u64>().unwrap(), sel[4]);
-    let (cfg, ops, _) = gen_history(seed);
+    let quiet = args.get("shape").map(|s| s == "quiet").unwrap_or(false);
+    let (cfg, ops, _) = gen_history(seed, quiet);
     let mon = MonDir::new(MonCfg { monitors: true, keep_payloads: true, ..Default::default() });
     let mut viol: Vec<(String, Value)> = vec![];
     let mut ex = match Exec::create(Box::new(mon.clone()), cfg.clone(), Some(mon.clone())) {
@@ -179,10 +221,42 @@ fn child_main(args: &BTreeMap<String, String>) -> ! {
                         ex.model.payload = payload;
                         ex.model.commits.push(would.clone());
                     } else {
-                        viol.push((
-                            "after-failed-commit:state-is-neither-old-nor-new".into(),
-                            json!({"n_ids": ids.len(), "old": ex.model.committed.len(), "new": would.len()}),
-                        ));
+                        // Same root cause as the late publication (known finding): a background
+                        // merge that ends after the failed commit publishes the in-memory
+                        // registers; when the merge had started before the commit, its output
+                        // lacks the failed transaction's deletes, so the published state lies
+                        // between the old and the new one. Recognised only for a failed
+                        // meta.json replace, and only when every observed document belongs to
+                        // the old or the new state and nothing common to both is missing.
+                        let between = kind == "atomic_write"
+                            && fkind == "meta"
+                            && ids.iter().all(|i| ex.model.committed.contains_key(i) || would.contains_key(i))
+                            && ex
+                                .model
+                                .committed
+                                .keys()
+                                .filter(|k| would.contains_key(k))
+                                .all(|k| ids.contains(k));
+                        if between {
+                            viol.push((
+                                "failed-commit-took-effect-later:published-by-end_merge-after-commit-returned-Err:partial".into(),
+                                json!({"n_ids": ids.len(), "old": ex.model.committed.len(), "new": would.len()}),
+                            ));
+                            let mut adopted = DocSetState::new();
+                            for i in &ids {
+                                if let Some(d) = would.get(i).or_else(|| ex.model.committed.get(i)) {
+                                    adopted.insert(*i, d.clone());
+                                }
+                            }
+                            ex.model.pending.clear();
+                            ex.model.committed = adopted.clone();
+                            ex.model.commits.push(adopted);
+                        } else {
+                            viol.push((
+                                "after-failed-commit:state-is-neither-old-nor-new".into(),
+                                json!({"n_ids": ids.len(), "old": ex.model.committed.len(), "new": would.len()}),
+                            ));
+                        }
                     }
                 }
             }
@@ -191,7 +265,7 @@ fn child_main(args: &BTreeMap<String, String>) -> ! {
         if matches!(op, Op::Merge { .. } | Op::Gc) {
             continue;
         }
-        if is_commit && rr.chance(3, 4) {
+        if is_commit && quiet {
             // ... but a failed commit does not have to kill the writer: a user may keep it and
             // reclaim space or merge before retrying. Whatever runs now must leave the last
             // successful commit readable.
@@ -200,18 +274,22 @@ fn child_main(args: &BTreeMap<String, String>) -> ! {
             // DESIGN.md §8, observation on failed commits; the statement speaks of dropping or
             // rolling back the failed writer.)
             let _ = guarded(|| ex.step(&Op::Gc));
-            check_late_publish(&mon, &mut ex, &mut maybe_later, &mut viol, "after gc on the same writer");
-            match observe_snapshot(&mon) {
-                Err(e) => viol.push((
-                    "after-failed-commit+gc:last-commit-unreadable".into(),
-                    json!({"err": e, "op": op.kind()}),
-                )),
-                Ok(ids) => {
-                    if !same(&ids, &ex.model.committed) {
-                        viol.push((
-                            "after-failed-commit+gc:state-differs-from-last-commit".into(),
-                            json!({"n_ids": ids.len(), "expected": ex.model.committed.len()}),
-                        ));
+            if maybe_later.is_some() {
+                // one observation only: a background merge may end at any moment
+                check_late_publish(&mon, &mut ex, &mut maybe_later, &mut viol, "after gc on the same writer");
+            } else {
+                match observe_snapshot(&mon) {
+                    Err(e) => viol.push((
+                        "after-failed-commit+gc:last-commit-unreadable".into(),
+                        json!({"err": e, "op": op.kind()}),
+                    )),
+                    Ok(ids) => {
+                        if !same(&ids, &ex.model.committed) {
+                            viol.push((
+                                "after-failed-commit+gc:state-differs-from-last-commit".into(),
+                                json!({"n_ids": ids.len(), "expected": ex.model.committed.len()}),
+                            ));
+                        }
                     }
                 }
             }
@@ -234,6 +312,9 @@ fn child_main(args: &BTreeMap<String, String>) -> ! {
                 ex.abandon_writer();
             }
         }
+        // the old updater is killed now: one last look, then the limbo is over
+        check_late_publish(&mon, &mut ex, &mut maybe_later, &mut viol, "after recovery");
+        maybe_later = None;
     }
     let fired = mon.faults_fired();
     mon.clear_faults();
@@ -348,11 +429,11 @@ fn cpu_ticks(pid: u32) -> Option<u64> {
     Some(f.get(11)?.parse::<u64>().ok()? + f.get(12)?.parse::<u64>().ok()?)
 }
 
-fn run_child(cseed: u64, sel: &str, watchdog: Duration) -> ChildEnd {
+fn run_child(cseed: u64, sel: &str, quiet: bool, watchdog: Duration) -> ChildEnd {
     use std::os::unix::process::ExitStatusExt;
     let exe = std::env::current_exe().expect("exe");
     let mut child = match Command::new(exe)
-        .args(["--child", "1", "--cseed", &cseed.to_string(), "--sel", sel])
+        .args(["--child", "1", "--cseed", &cseed.to_string(), "--sel", sel, "--shape", if quiet { "quiet" } else { "any" }])
         .stdout(Stdio::piped())
         .stderr(Stdio::null())
         .spawn()
@@ -401,9 +482,9 @@ fn run_child(cseed: u64, sel: &str, watchdog: Duration) -> ChildEnd {
     }
 }
 
-fn parent_case(case: u64, rng: &mut Rng, rep: &mut Report, per_history: usize) {
+fn parent_case(case: u64, rng: &mut Rng, rep: &mut Report, per_history: usize, quiet: bool) {
     let cseed = rng.next_u64();
-    let (cfg, ops, _) = gen_history(cseed);
+    let (cfg, ops, _) = gen_history(cseed, quiet);
     // fault-free reference run: which (role, kind, file kind) occur, and how often
     let mon = MonDir::new(MonCfg { monitors: true, log_reads: false, ..Default::default() });
     let mut ex = match Exec::create(Box::new(mon.clone()), cfg.clone(), Some(mon.clone())) {
@@ -442,7 +523,7 @@ fn parent_case(case: u64, rng: &mut Rng, rep: &mut Report, per_history: usize) {
         .cloned()
         .collect();
     for si in 0..per_history {
-        let forced = si < 4 && !commit_point.is_empty();
+        let forced = (quiet || si < 4) && !commit_point.is_empty();
         let k = if forced { rng.pick(&commit_point).clone() } else { rng.pick(&keys).clone() };
         let n = occ[&k];
         let nth = match rng.below(3) {
@@ -459,7 +540,7 @@ fn parent_case(case: u64, rng: &mut Rng, rep: &mut Report, per_history: usize) {
         };
         let sel = format!("{}:{}:{}:{}:{}", k.0, k.1, k.2, nth, mode);
         rep.eval();
-        match run_child(cseed, &sel, Duration::from_secs(60)) {
+        match run_child(cseed, &sel, quiet, Duration::from_secs(60)) {
             ChildEnd::Inconclusive(e) => rep.note(format!("scenario {sel} inconclusive: {e}")),
             ChildEnd::Signal(sig) => rep.violation(
                 format!("child-aborted:signal-{sig}:{}:{}:{}", k.0, k.1, k.2),
@@ -506,7 +587,7 @@ fn parent_case(case: u64, rng: &mut Rng, rep: &mut Report, per_history: usize) {
                             format!("{sig}|fault@{}:{}:{}", k.0, k.1, k.2),
                             json!({"case": case, "cseed": cseed, "selector": sel, "detail": x[1], "surfaced": surfaced,
                                    "history": ops.iter().map(|o| o.kind()).collect::<Vec<_>>(),
-                                   "replay_child": format!("harness/target/verif/c11 --child 1 --cseed {cseed} --sel {sel}")}),
+                                   "replay_child": format!("harness/target/verif/c11 --child 1 --cseed {cseed} --sel {sel} --shape {}", if quiet { "quiet" } else { "any" })}),
                         );
                     }
                 }
@@ -538,7 +619,12 @@ fn main() {
     let ctx = Ctx::from_env("C11", "fault_enumeration");
     let histories = ctx.scale(48, 600) as u64;
     let per_history = ctx.scale(14, 40);
-    let rep = run_cases(&ctx, "faults", histories, |c, rng, rep| parent_case(c, rng, rep, per_history));
+    let mut rep = run_cases(&ctx, "faults", histories, |c, rng, rep| parent_case(c, rng, rep, per_history, false));
+    // commit-point faults on "quiet" histories (no background merges): here the writer is kept
+    // after the failed commit and garbage collection runs on it before recovery
+    rep.merge(run_cases(&ctx, "commit-point", ctx.scale(24, 300) as u64, |c, rng, rep| {
+        parent_case(c, rng, rep, 6, true)
+    }));
     simple_finish(
         &ctx,
         rep,
